@@ -3,6 +3,7 @@ import RtcModel.C15Ext
 import RtcModel.C15Rtcp
 import RtcModel.C15NackBuf
 import RtcModel.C15Apt
+import RtcModel.C15RtxFlow
 import RtcModel.Drv.Util
 namespace RtcModel.Drv.C15
 open RtcModel.C15 RtcModel.Drv
@@ -131,20 +132,22 @@ def bufOp? (s : String) : Option BufOp :=
   | ["x", a, q, t] => do some (.sent (← u32? a) (← u16? q) (← nat? t))
   | ["r", a] => do some (.setRtx (← u32? a))
   | ["q", t, qs] => do some (.query (← nat? t) (← mapM? u16? (listOf qs ";")))
+  | ["n", t, qs] => do some (.nack (← nat? t) (← mapM? u16? (listOf qs ";")))
   | _ => none
 
 def showBufOut : BufOut → String
   | .len n => s!"l{n}"
   | .got xs => "g" ++ showList (xs.map fun (q, t) => s!"{q.toNat}:{t}") ";"
+  | .resent xs => "r" ++ showList (xs.map fun (q, t, r) => s!"{q.toNat}:{t}:" ++ (match r with | none => "-" | some v => toString v.toNat)) ";"
 
 def gapPkt? (s : String) : Option (UInt32 × UInt16) :=
   match s.splitOn ":" with
   | [a, q] => do some (← u32? a, ← u16? q)
   | _ => none
 
-def showGapOut : Option (List UInt16) → String
-  | none => "n"
-  | some xs => "k" ++ showList (xs.map (toString ·.toNat)) ";"
+def showGapOut : Option (List UInt16) × Nat → String
+  | (none, n) => s!"n#{n}"
+  | (some xs, n) => "k" ++ showList (xs.map (toString ·.toNat)) ";" ++ s!"#{n}"
 
 def attr? (s : String) : Option (Bytes × Option Bytes) :=
   match s.splitOn "=" with
@@ -239,6 +242,22 @@ def handle (stream : String) (args : List String) : String :=
     | none => "bad-args"
     | some attrs =>
       showList (((extractApt attrs []).foldr insertPt []).map fun (a, b) => s!"{a.toNat}:{b.toNat}") ";"
+  | "apt_append", prim :: rtx :: clock :: fmts :: toks =>
+    match u8? prim, u8? rtx, nat? clock, mapM? unhex (listOf fmts ";"), mapM? attr? toks with
+    | some p, some r, some c, some fs, some attrs =>
+      let s' := appendRtx ⟨fs, attrs⟩ p r c
+      let m := extractApt s'.attrs []
+      let showAttr := fun (a : Bytes × Option Bytes) => match a.2 with | none => hex a.1 | some v => hex a.1 ++ "=" ++ hex v
+      showList (s'.formats.map hex) ";" ++ "|" ++ showList (s'.attrs.map showAttr) "," ++ "|" ++
+        showList ((m.foldr insertPt []).map fun (a, b) => s!"{a.toNat}:{b.toNat}") ";" ++ "|" ++
+        showList (((rtxCandidates m p).foldr (fun x acc => insertPt (x, 0) acc) []).map fun (a, _) => toString a.toNat) ";"
+    | _, _, _, _, _ => "bad-args"
+  | "rtx_rx", [apt, rs, ssrc, t] =>
+    let pair? := fun (s : String) => match s.splitOn ":" with | [a, b] => (do some (← u8? a, ← u8? b) : Option (UInt8 × UInt8)) | _ => none
+    match mapM? pair? (listOf apt ";"), (if rs = "-" then some none else (u32? rs).map some), u32? ssrc, pkt? t with
+    | some m, some r, some s, some p =>
+      (match maybeUnwrap m r s p with | none => "none" | some q => "some " ++ showPkt q)
+    | _, _, _, _ => "bad-args"
   | "is_rtcp", [hx] =>
     match unhex hx with
     | none => "bad-hex"
